@@ -33,7 +33,7 @@ type histCase struct {
 
 var histTreeCfg = h.TreeCfg{
 	MaxEntries: 10, MaxDepth: 3, Names: []string{"a", "b", "ab", "a-b", "a.b", "c", "a0", "d"},
-	Xattrs: true, XattrNS: []string{"user.", "trusted."}, Hardlinks: true, BigFiles: true,
+	Xattrs: true, XattrNS: []string{"user.", "trusted."}, Hardlinks: true, SpecialLinks: true, BigFiles: true,
 	SymTargets: []string{"a", "b", "../a", "/a", "dangling"}, UncleanTargets: true,
 }
 
